@@ -213,18 +213,25 @@ def exec_hook_case(consts, h, rnd, cases_by_key):
         under.r = "R"
         under.w = "W"
         under.n = "N"
-        view = restricted(under, ["r"], ["w"])
+        wmode = h.get("w", "given")
+        if wmode == "given":
+            view = restricted(under, ["r"], ["w"])
+        elif wmode == "default":
+            view = restricted(under, ["r"])
+        else:
+            view = restricted(under, ["r"], rnd.choice([(), [], set(), frozenset()]))
         fx = Fixture(cfgd)
         try:
             proxy = fx.push(view)
-            name = {"get": "r", "set": "w", "del": "r"}[op] if h["listed"] else "n"
+            wname = "w" if wmode == "given" else "r"
+            name = {"get": "r", "set": wname, "del": "r"}[op] if h["listed"] else "n"
             out = fx.request(handler, proxy, name, *extra)
         finally:
             fx.close()
         d = dict(under.__dict__)
         if "Underlying" in h["allowed"]:
             ok = (op == "get" and out == ("ok", "R") and d == {"r": "R", "w": "W", "n": "N"}) or \
-                 (op == "set" and out[0] == "ok" and d == {"r": "R", "w": "NEW", "n": "N"})
+                 (op == "set" and out[0] == "ok" and d == dict({"r": "R", "w": "W", "n": "N"}, **{wname: "NEW"}))
         else:
             ok = out == ("exc", "AttributeError") and d == {"r": "R", "w": "W", "n": "N"}
         return {"result": list(out), "underlying": d}, ok
@@ -556,7 +563,7 @@ def main():
             chk.violation("isolation:default-refuses", "C06 %s" % ex, {"mode": "hook"})
             continue
         chk.evaluated()
-        chk.distinct(("hook", h["kind"], h["op"], h["listed"], h["enabled"]))
+        chk.distinct(("hook", h["kind"], h["op"], h["listed"], h["enabled"], h.get("w")))
         if not ok:
             chk.violation("hooks:%s:%s" % (h["kind"], h["op"]), "C06 %s object, %s of a %s name with the operation %s in the "
                           "configuration: observed %s, permitted %s" % (h["kind"], h["op"], "listed" if h["listed"] else "unlisted",
